@@ -60,6 +60,23 @@ def gen(rng, tier, index):
     yield {"history": hist, "own": None, "bystander": rng.randrange(1, 32) if rng.random() < 0.2 else 0}
 
 
+def same(a, b) -> bool:
+    """Equality of decoder results that treats NaN as equal to itself (a decoded 'nan*V' is a float NaN,
+    and NaN != NaN would make a result differ from itself)."""
+    try:
+        if a == b:
+            return True
+    except Exception:  # noqa: BLE001
+        return False
+    if isinstance(a, float) and isinstance(b, float):
+        return a != a and b != b
+    if isinstance(a, dict) and isinstance(b, dict):
+        return list(a.keys()) == list(b.keys()) and all(same(a[k], b[k]) for k in a)
+    if isinstance(a, (list, tuple)) and isinstance(b, (list, tuple)):
+        return len(a) == len(b) and all(same(x, y) for x, y in zip(a, b))
+    return False
+
+
 _ACCEPT_CACHE: dict = {}
 
 
@@ -143,12 +160,12 @@ def execute(sc):
             if r1 is None:
                 add("M1", "none-although-accepted", f"step {step}: None but {sorted(acc)} accept {payload[:30].hex()} (remembered {before})")
             else:
-                matching = [n for n, r in acc.items() if r == r1]
+                matching = [n for n, r in acc.items() if same(r, r1)]
                 if not matching:
                     add("M2", "result-of-no-accepting-decoder", f"step {step}: result equals none of the accepting decoders' results {sorted(acc)}")
                 elif last in acc:
                     bump("sticky_steps")
-                    if acc[last] != r1:
+                    if not same(acc[last], r1):
                         add("M3", "remembered-decoder-not-preferred", f"step {step}: remembered decoder {last} accepts the payload but the result is that of {matching}")
                 if matching and name not in matching:
                     add("M4", "name-does-not-match-result", f"step {step}: previous_success_decoder={name} but the result was produced by {matching}")
@@ -176,7 +193,7 @@ def execute(sc):
             except Exception as ex:  # noqa: BLE001
                 add("M4", f"previous_success_decoder-raised {type(ex).__name__}", f"step {step}: accessor raised {ex!r} after decode_message")
                 break
-            if r2 != r1 or name2 != name:
+            if not same(r2, r1) or name2 != name:
                 add("M5", f"decode_message-differs {kind}", f"step {step}: decode_message -> {name2 if r2 is not None else None}, decode_message_payload -> {name if r1 is not None else None}")
         if viol:
             break
